@@ -3,7 +3,7 @@ import Hgxv.Proofs.C05LinkC01
 /-! # C05 — sub-hypergraph extraction and copy are faithful and leave the source untouched
 
 Property theorems about the model `Hgxv/Model/C05.lean` (`Content κ`: weighted flag, nodes with metadata,
-hyperedge keys with weight and metadata; `κ = UKey` for `Hypergraph`, `κ = DKey` for
+hyperedge keys with weight and metadata, incidence metadata, empty edges, hypergraph-level metadata; `κ = UKey` for `Hypergraph`, `κ = DKey` for
 `DirectedHypergraph`; every statement is generic in `κ`).
 
 The only hypothesis on a source is `WF src`: distinct nodes, distinct keys, every node of a hyperedge is
@@ -17,7 +17,9 @@ open C05
 variable {κ : Type} [DecidableEq κ] [Keyed κ]
 
 /-- every history of `add_node, add_edge, remove_edge, set_weight, set_node_metadata, set_edge_metadata,
-set_attr_to_node_metadata, set_attr_to_edge_metadata` (rejected calls included) ends in a well-formed object -/
+set_attr_to_node_metadata, set_attr_to_edge_metadata, set_incidence_metadata, get_incidence_metadata(..)[f] = v,
+add_empty_edge, set_hypergraph_metadata, set_attr_to_hypergraph_metadata` (rejected calls included) ends in a
+well-formed object -/
 theorem C05_wf_reachable (w : Bool) (ops : List (Op κ)) : WF (run (empty w : Content κ) ops) :=
   wf_run _ ops (wf_empty w)
 
@@ -185,6 +187,96 @@ theorem C05_weightedness (src r : Content κ) :
           exact fold_weighted _ src.weighted (fun h a h' e => copyEdgeMeta_weighted src h h' a e) _ _ _ hy e
   · intro e; subst e; rfl
 
+/-- the result `r` of an extraction carries nothing but the constructor's defaults outside nodes and hyperedges -/
+def C05.FreshAux (src r : Content κ) : Prop :=
+  r.inc = [] ∧ r.emptyEdges = [] ∧
+  r.hmeta = [(attrWeighted, if src.weighted then 1 else 0), (attrType, Keyed.typeTok κ)]
+
+/-- what an extraction does NOT carry (as the code is: the result is a freshly constructed object filled through
+`add_node / add_edge / set_*_metadata`): whatever the source and the selection, an extraction that returns has no
+incidence metadata, no empty edges and the hypergraph-level metadata the constructor writes (`weighted`, `type`);
+`copy()` in contrast keeps all three (it returns an equal object, `C05_copy_independent`) -/
+theorem C05_extract_fresh_aux (src r : Content κ) :
+    (∀ ns, induced src ns = some r → FreshAux src r) ∧
+    (∀ comp, largestComponentSub src comp = some r → FreshAux src r) ∧
+    (∀ os ss keep, byOrders src os ss keep = some r → FreshAux src r) ∧
+    (∀ o s upTo keep, edgesSub src o s upTo keep = some r → FreshAux src r) ∧
+    (copy src = r → r.inc = src.inc ∧ r.emptyEdges = src.emptyEdges ∧ r.hmeta = src.hmeta) := by
+  suffices hs : (∀ ns, induced src ns = some r → aux r = aux (empty src.weighted : Content κ)) ∧
+      (∀ comp, largestComponentSub src comp = some r → aux r = aux (empty src.weighted : Content κ)) ∧
+      (∀ os ss keep, byOrders src os ss keep = some r → aux r = aux (empty src.weighted : Content κ)) ∧
+      (∀ o s upTo keep, edgesSub src o s upTo keep = some r → aux r = aux (empty src.weighted : Content κ)) ∧
+      (copy src = r → aux r = aux src) by
+    have conv : aux r = aux (empty src.weighted : Content κ) → FreshAux src r := by
+      intro h
+      simp only [aux, empty, Prod.mk.injEq] at h
+      exact ⟨h.1, h.2.1, h.2.2⟩
+    refine ⟨fun ns e => conv (hs.1 ns e), fun c e => conv (hs.2.1 c e), fun a b c e => conv (hs.2.2.1 a b c e),
+      fun a b c d e => conv (hs.2.2.2.1 a b c d e), fun e => ?_⟩
+    have h := hs.2.2.2.2 e
+    simp only [aux, Prod.mk.injEq] at h
+    exact ⟨h.1, h.2.1, h.2.2⟩
+  have hind : ∀ ns, induced src ns = some r → aux r = aux (empty src.weighted : Content κ) := by
+    intro ns e
+    simp only [induced, Option.bind_eq_bind] at e
+    cases h1 : List.foldlM (copyNodeMeta src) (touchAll (empty src.weighted) ns) ns with
+    | none => simp [h1] at e
+    | some x =>
+      simp only [h1, Option.bind_some] at e
+      have hx := fold_aux _ (aux (empty src.weighted : Content κ)) (fun h a h' e => copyNodeMeta_aux src h h' a e) _ _ _ (by rfl) h1
+      exact fold_aux _ (aux (empty src.weighted : Content κ)) (fun h a h' e => reinsert_aux src h h' a e) _ _ _ hx e
+  refine ⟨hind, hind, ?_, ?_, ?_⟩
+  · intro os ss keep e
+    simp only [byOrders, Option.bind_eq_bind] at e
+    cases hs : sizesArg os ss with
+    | none => simp [hs] at e
+    | some l =>
+      simp only [hs, Option.bind_some] at e
+      cases keep with
+      | true =>
+        simp only [↓reduceIte] at e
+        cases h1 : List.foldlM (copyNodeMeta src) (touchAll (empty src.weighted) (nodesOf src)) (nodesOf src) with
+        | none => simp [h1] at e
+        | some x =>
+          simp only [h1, Option.bind_some] at e
+          have hx := fold_aux _ (aux (empty src.weighted : Content κ)) (fun h a h' e => copyNodeMeta_aux src h h' a e) _ _ _ (by rfl) h1
+          cases h2 : List.foldlM (reinsert src) x ((dedup l).flatMap (keysOfSize src)) with
+          | none => simp [h2] at e
+          | some y =>
+            simp only [h2, Option.bind_some, Option.some.injEq] at e
+            subst e
+            exact fold_aux _ (aux (empty src.weighted : Content κ)) (fun h a h' e => reinsert_aux src h h' a e) _ _ _ hx h2
+      | false =>
+        simp only [Bool.false_eq_true, ↓reduceIte] at e
+        cases h2 : List.foldlM (reinsert src) (empty src.weighted) ((dedup l).flatMap (keysOfSize src)) with
+        | none => simp [h2] at e
+        | some y =>
+          simp only [h2, Option.bind_some] at e
+          have hy := fold_aux _ (aux (empty src.weighted : Content κ)) (fun h a h' e => reinsert_aux src h h' a e) _ _ _ (by rfl) h2
+          exact fold_aux _ (aux (empty src.weighted : Content κ)) (fun h a h' e => copyNodeMeta_aux src h h' a e) _ _ _ hy e
+  · intro o s upTo keep e
+    simp only [edgesSub, Option.bind_eq_bind] at e
+    cases hp : edgeFilter (κ := κ) o s upTo with
+    | none => simp [hp] at e
+    | some p =>
+      simp only [hp, Option.bind_some] at e
+      have h0 : aux (if keep = true then touchAll (empty src.weighted) (nodesOf src) else (empty src.weighted : Content κ))
+          = aux (empty src.weighted : Content κ) := by cases keep <;> rfl
+      cases h1 : List.foldlM (reinsertBare src)
+          (if keep = true then touchAll (empty src.weighted) (nodesOf src) else empty src.weighted)
+          ((keysOf src).filter p) with
+      | none => simp [h1] at e
+      | some x =>
+        simp only [h1, Option.bind_some] at e
+        have hx := fold_aux _ (aux (empty src.weighted : Content κ)) (fun h a h' e => reinsertBare_aux src h h' a e) _ _ _ h0 h1
+        cases h2 : List.foldlM (copyNodeMeta src) x (nodesOf x) with
+        | none => simp [h2] at e
+        | some y =>
+          simp only [h2, Option.bind_some] at e
+          have hy := fold_aux _ (aux (empty src.weighted : Content κ)) (fun h a h' e => copyNodeMeta_aux src h h' a e) _ _ _ hx h2
+          exact fold_aux _ (aux (empty src.weighted : Content κ)) (fun h a h' e => copyEdgeMeta_aux src h h' a e) _ _ _ hy e
+  · intro e; subst e; rfl
+
 /-- the source is untouched: storing ANY extraction `f` of slot `i` (one of the functions above, `copy`, an
 extraction that raises) into another slot `j` changes no slot but `j`; in particular slot `i` holds the same
 object before and after.  (The extraction functions are functions of the source's value; on the code the
@@ -194,8 +286,9 @@ theorem C05_source_unchanged (sl : Slots κ) (i j : Nat) (f : Content κ → Opt
     ∀ m, m ≠ j → AL.get? (extractInto sl i j f) m = AL.get? sl m :=
   ⟨get?_extractInto_ne sl i j i f hij, fun m hm => get?_extractInto_ne sl i j m f (fun e => hm e.symm)⟩
 
-/-- `copy()` returns an equal object, and afterwards the copy (slot `j`) and the original (slot `i`) are
-independent: after ANY interleaving `ops` of mutations addressed to any slots, the original is what it
+/-- `copy()` returns an equal object (equal as a `Content`: weighted flag, nodes, hyperedges with weights and
+metadata, incidence metadata, empty edges, hypergraph-level metadata), and afterwards the copy (slot `j`) and the
+original (slot `i`) are independent: after ANY interleaving `ops` of mutations addressed to any slots, the original is what it
 would be had only its own mutations been applied, and so is the copy -/
 theorem C05_copy_independent (sl : Slots κ) (i j : Nat) (hij : j ≠ i) (c : Content κ)
     (hc : AL.get? sl i = some c) (ops : List (Nat × Op κ)) :
@@ -227,26 +320,28 @@ def C05.exHistory : List (Op UKey) :=
 def C05.exSrc : Content UKey := run (empty true) exHistory
 
 example : exSrc = ⟨true, [(9, [(2, 0)]), (1, [(0, 0)]), (2, []), (3, []), (4, [])],
-    [([1, 2], (24, [(1, 1)])), ([2, 3, 4], (28, [(1, 2)])), ([4], (8, []))]⟩ := by decide
+    [([1, 2], (24, [(1, 1)])), ([2, 3, 4], (28, [(1, 2)])), ([4], (8, []))], [], [], [(100, 1), (101, 0)]⟩ := by decide
 
 example : WF exSrc := C05_wf_reachable true exHistory
 
 -- `C05_induced` applies (hypotheses hold) and its conclusion is the computed one: weights 24 and 8, not ids
 example : ∀ n ∈ [4, 1, 2, 2], n ∈ nodesOf exSrc := by decide
 example : induced exSrc [4, 1, 2, 2] =
-    some ⟨true, [(4, []), (1, [(0, 0)]), (2, [])], [([1, 2], (24, [(1, 1)])), ([4], (8, []))]⟩ := by decide
+    some ⟨true, [(4, []), (1, [(0, 0)]), (2, [])], [([1, 2], (24, [(1, 1)])), ([4], (8, []))], [], [],
+      [(100, 1), (101, 0)]⟩ := by decide
 -- a node outside the hypergraph is rejected
 example : induced exSrc [1, 77] = none := by decide
 
 -- `C05_by_sizes`: sizes [1, 3, 1] (a repetition) without the isolated nodes
 example : sizesArg none (some [1, 3, 1]) = some [1, 3, 1] := rfl
 example : byOrders exSrc none (some [1, 3, 1]) false =
-    some ⟨true, [(4, []), (2, []), (3, [])], [([4], (8, [])), ([2, 3, 4], (28, [(1, 2)]))]⟩ := by decide
+    some ⟨true, [(4, []), (2, []), (3, [])], [([4], (8, [])), ([2, 3, 4], (28, [(1, 2)]))], [], [],
+      [(100, 1), (101, 0)]⟩ := by decide
 example : (byOrders exSrc (some [1]) none true).map (·.edges) = some [([1, 2], (24, [(1, 1)]))] := by decide
 
 -- `C05_edges_sub`: the four (up_to, keep_isolated_nodes) cases for size 2
 example : edgesSub exSrc none (some 2) false false =
-    some ⟨true, [(1, [(0, 0)]), (2, [])], [([1, 2], (24, [(1, 1)]))]⟩ := by decide
+    some ⟨true, [(1, [(0, 0)]), (2, [])], [([1, 2], (24, [(1, 1)]))], [], [], [(100, 1), (101, 0)]⟩ := by decide
 example : (edgesSub exSrc none (some 2) false true).map nodesOf = some [9, 1, 2, 3, 4] := by decide
 example : (edgesSub exSrc none (some 2) true false).map (fun r => (nodesOf r, keysOf r)) =
     some ([1, 2, 4], [[1, 2], [4]]) := by decide
@@ -260,12 +355,31 @@ def C05.exD : Content DKey :=
 example : WF exD := C05_wf_reachable false _
 example : exD.edges = [(([1], [2]), (4, [(1, 1)])), (([2, 3], [1]), (4, []))] := by decide
 example : edgesSub exD none (some 3) false false =
-    some ⟨false, [(2, []), (3, []), (1, [])], [(([2, 3], [1]), (4, []))]⟩ := by decide
+    some ⟨false, [(2, []), (3, []), (1, [])], [(([2, 3], [1]), (4, []))], [], [], [(100, 0), (101, 1)]⟩ := by decide
 
 -- `C05_copy_independent` / `C05_source_unchanged` on a two-slot state
 example : AL.get? (runSlots (extractInto [(0, exSrc)] 0 1 (fun x => some (copy x)))
     [(1, .removeEdge [4]), (0, .setWeight [4] 12), (1, .addNode 30 [])]) 0
     = some (run exSrc [.setWeight [4] 12]) := by decide
+
+-- incidence metadata (stored under the tuple as given, kept after `remove_edge`), empty edges, hypergraph-level
+-- metadata: `copy()` keeps them and makes them independent, extractions start from the constructor's defaults
+def C05.exAuxSrc : Content UKey :=
+  run (empty true) (exHistory ++ [.setIncMeta [1, 2] ([2, 1], []) 2 [(0, 3)], .setIncMeta [4] ([4], []) 4 [], .addEmptyEdge 0 [(1, 0)],
+             .addEmptyEdge 0 [], .setHyperAttr 2 5, .setIncMeta [7, 8] ([7, 8], []) 7 [], .removeEdge [4],
+             .setIncAttr [1, 2] ([2, 1], []) 2 1 1, .setIncAttr [1, 2] ([1, 2], []) 2 1 1])
+example : exAuxSrc.inc = [((([2, 1], []), 2), [(0, 3), (1, 1)]), ((([4], []), 4), [])] ∧
+    exAuxSrc.emptyEdges = [(0, [(1, 0)])] ∧ exAuxSrc.hmeta = [(100, 1), (101, 0), (2, 5)] ∧
+    keysOf exAuxSrc = [[1, 2], [2, 3, 4]] := by decide
+example : WF exAuxSrc := C05_wf_reachable true _
+example : getIncMeta exAuxSrc [4] ([4], []) 4 = none ∧ getIncMeta exAuxSrc [1, 2] ([2, 1], []) 2 = some [(0, 3), (1, 1)] := by
+  decide
+example : ∃ r, induced exAuxSrc [1, 2] = some r ∧ r.inc = [] ∧ r.emptyEdges = [] ∧ r.hmeta = [(100, 1), (101, 0)] ∧
+    keysOf r = [[1, 2]] := by decide
+example : AL.get? (runSlots (extractInto [(0, exAuxSrc)] 0 1 (fun x => some (copy x)))
+    [(1, .addEmptyEdge 0 []), (1, .addEmptyEdge 1 []), (0, .setHyperAttr 2 6), (1, .setIncAttr [1, 2] ([2, 1], []) 2 0 0)]) 1
+    = some { exAuxSrc with emptyEdges := [(0, [(1, 0)]), (1, [])],
+                           inc := [((([2, 1], []), 2), [(0, 0), (1, 1)]), ((([4], []), 4), [])] } := by decide
 
 /-! ## Link to the full model of `Hypergraph` (C01)
 
